@@ -286,24 +286,13 @@ func (z *ZodBool[T]) Refine(fn func(T) bool, params ...any) *ZodBool[T] {
 		}
 	}
 
-	sp := utils.NormalizeParams(params...)
-	var msg any
-	if sp.Error != nil {
-		msg = sp.Error
-	}
-
-	check := checks.NewCustom[any](wrapper, msg)
+	check := checks.NewCustom[any](wrapper, utils.RefineParams(params...))
 	return z.withCheck(check)
 }
 
 // RefineAny applies a custom validation function that receives the raw value.
 func (z *ZodBool[T]) RefineAny(fn func(any) bool, params ...any) *ZodBool[T] {
-	sp := utils.NormalizeParams(params...)
-	var msg any
-	if sp.Error != nil {
-		msg = sp.Error
-	}
-	check := checks.NewCustom[any](fn, msg)
+	check := checks.NewCustom[any](fn, utils.RefineParams(params...))
 	return z.withCheck(check)
 }
 
